@@ -493,6 +493,11 @@ def main_check(P, argv):
     thm_ok, theorems, praw = (False, [], "")
     if ok_mk:
         thm_ok, theorems, praw = coq_properties(prop)
+        if not thm_ok and "inconsistent assumptions" in praw:
+            # a compiled file changed under our feet between make and the re-check (another process compiling in coq/): redo both once
+            ok_mk, mk_out = coq_make(["Properties_%s.vo" % prop, "Extract_%s.vo" % prop])
+            if ok_mk:
+                thm_ok, theorems, praw = coq_properties(prop)
     if not ok_mk or not thm_ok:
         m = re.findall(r'File "\./([\w/]+\.v)", line (\d+)', mk_out + praw)
         named = []
